@@ -56,8 +56,9 @@ const watchdog = 20 * time.Second
 // ---------- case description (JSON-able, sufficient for replay) ----------
 
 type step struct {
-	Op  string `json:"op"`
-	Arg int    `json:"arg,omitempty"`
+	Op   string `json:"op"`
+	Arg  int    `json:"arg,omitempty"`
+	Arg2 int    `json:"arg2,omitempty"` // limit-change "update": new QPSInterval in ms (0: unchanged)
 }
 
 type caseDesc struct {
@@ -87,6 +88,7 @@ type caseDesc struct {
 	Kinds      string `json:"kinds,omitempty"` // call | push | mix
 	PauseTicks int    `json:"pause_ticks,omitempty"`
 	Iter       int    `json:"iterations,omitempty"`
+	Place      string `json:"burst_placement,omitempty"` // limit-change: at-once | first-refill | ticks-later
 }
 
 type finding struct {
@@ -1977,6 +1979,434 @@ func genShorten(i int, r *core.Rand) caseDesc {
 	return c
 }
 
+// ---------- rate engine: Update of a rate limit x bucket level x burst placement ----------
+
+type relMark struct {
+	Tb, P, Ta int64
+	Epoch     int   // number of Updates applied before this mark
+	Ceil      int64 // most tokens the bucket can hold at this mark, as far as the statement lets the oracle assume
+	Settled   bool  // Ceil is the capacity in force (a refill under the configuration in force has certainly been applied)
+	Label     string
+}
+
+// runRelimit: a limiter (total or per-handler) is created with MaxQPS q0, its bucket is left full, partly drained
+// or emptied, Update() changes MaxQPS (lowered or raised; optionally the interval too; optionally a second Update
+// back), and bursts larger than the capacity arrive at once, as soon as the first refill under the new limit has
+// certainly been applied, or several ticks later, with single ticks between further bursts. Every window between
+// two marks of the same configuration is bounded in logical time:
+//
+//	admitted <= ceil(first mark) + ticks * (once(configuration in force) + 1)
+//
+// ticks = VerifTicks read before the first call of the window and after its last reply. ceil is the capacity in
+// force, EXCEPT between an Update that lowered the limit and the first refill certainly applied after it, where it
+// is the largest capacity since the last such point (the limiter applies a lowered capacity at its next refill, the
+// statement does not say when a lowered capacity takes effect, so the tokens of the old capacity are not held
+// against it before that; such windows are counted as observations). "Certainly applied": 3 refill ticks counted
+// after Update() returned that cannot belong to another ticker - every counted tick starts after the Update and so
+// refills under the new limit, at most one of the three can be a tick left in the channel of a ticker the Update
+// stopped, and of two ticks of one ticker goroutine the first is complete when the second is counted. Tickers of
+// earlier cases of the process are parked at one tick per second; what they can have contributed (elapsed/1s + 3
+// each, the sound wall-clock direction: load only delays the decision) is subtracted first. Windows across an
+// Update are not judged.
+func runRelimit(c caseDesc) *report {
+	rp := &report{extra: map[string]interface{}{}}
+	iv := time.Duration(c.IntervalMs) * time.Millisecond
+	rs := &rateState{arrived: map[string]bool{}, passed: map[string]bool{}, handled: map[string]bool{}}
+	curRate.Store(rs)
+	handler := c.Mode == "handler"
+	direct := c.Sessions == 0
+	method := "/limit-change/direct"
+	mk := func(qps int, interval time.Duration) overloader.LimitConfig {
+		cfg := overloader.LimitConfig{QPSInterval: interval}
+		if handler {
+			cfg.MaxHandlerQPS = []overloader.HandlerLimit{{ServiceMethod: method, MaxQPS: int32(qps)}}
+		} else {
+			cfg.MaxTotalQPS = int32(qps)
+		}
+		return cfg
+	}
+	parked := atomic.LoadInt64(&liveParked)
+	qps := c.MaxQPS
+	var ov *overloader.Overloader
+	var links []*bed.Link
+	var srv, cli erpc.Peer
+	if direct {
+		ov = overloader.New(mk(qps, iv))
+	} else {
+		if handler {
+			ov = overloader.New(overloader.LimitConfig{QPSInterval: iv})
+		} else {
+			ov = overloader.New(mk(qps, iv))
+		}
+		srv = erpc.NewPeer(erpc.PeerConfig{}, rateArrive{}, ov, ratePassed{})
+		rs.callRoute = srv.RouteCallFunc(RateCall)
+		rs.pushRoute = srv.RoutePushFunc(RatePush)
+		if handler {
+			method = rs.callRoute
+			ov.Update(mk(qps, iv)) // the Update that introduces the handler limit (full bucket)
+		}
+		cli = erpc.NewPeer(erpc.PeerConfig{})
+	}
+	defer func() {
+		ov.Update(mk(qps, time.Second)) // park the ticker
+		atomic.AddInt64(&liveParked, 1)
+		for _, l := range links {
+			l.CA.Sever(false)
+		}
+		if !direct {
+			srv.Close()
+			cli.Close()
+		}
+	}()
+	for i := 0; i < c.Sessions; i++ {
+		l, err := bed.Connect(cli, srv, erpc.DefaultProtoFunc(), erpc.DefaultProtoFunc(), nil)
+		if err != nil {
+			rp.inconclusive = err.Error()
+			return rp
+		}
+		links = append(links, l)
+	}
+	r := core.NewRand(c.Seed, 78)
+	var dAdmitted, dRefused int64
+	var okCalls, errCalls, otherErr, pushes int64
+	P := func() int64 {
+		switch {
+		case direct:
+			return atomic.LoadInt64(&dAdmitted)
+		case handler:
+			return atomic.LoadInt64(&rs.nPassedCall) // pushes go to another handler: not limited, not counted
+		}
+		return atomic.LoadInt64(&rs.nPassed)
+	}
+	seq := 0
+	issue := func(n int) bool {
+		var wg sync.WaitGroup
+		if direct {
+			const G = 8
+			for g := 0; g < G; g++ {
+				k := n / G
+				if g < n%G {
+					k++
+				}
+				wg.Add(1)
+				go func(g, k int) {
+					defer wg.Done()
+					ctx := fakeCtx{m: method}
+					for j := 0; j < k; j++ {
+						var st *erpc.Status
+						if (g+j)&1 == 0 {
+							st = ov.PostReadCallHeader(ctx)
+						} else {
+							st = ov.PostReadPushHeader(ctx)
+						}
+						if st.OK() {
+							atomic.AddInt64(&dAdmitted, 1)
+						} else {
+							atomic.AddInt64(&dRefused, 1)
+						}
+					}
+				}(g, k)
+			}
+			return waitWG(&wg, watchdog)
+		}
+		for j := 0; j < n; j++ {
+			seq++
+			tok := fmt.Sprintf("l%d", seq)
+			sess := links[j%len(links)].A
+			push := c.Kinds == "mix" && r.Intn(3) == 0
+			wg.Add(1)
+			go func() {
+				defer wg.Done()
+				if push {
+					atomic.AddInt64(&pushes, 1)
+					sess.Push(rs.pushRoute, tok, erpc.WithSetMeta("tok", tok))
+					return
+				}
+				var res string
+				_, st := sess.Call(rs.callRoute, tok, &res, erpc.WithSetMeta("tok", tok)).Reply()
+				switch {
+				case st.OK():
+					atomic.AddInt64(&okCalls, 1)
+				case strings.Contains(st.Msg(), "qps overload"):
+					atomic.AddInt64(&errCalls, 1)
+				default:
+					atomic.AddInt64(&otherErr, 1)
+				}
+			}()
+		}
+		if !waitWG(&wg, watchdog) {
+			return false
+		}
+		if c.Kinds == "mix" { // a push has no reply: the window ends when the server has dealt with every message
+			return quiet()
+		}
+		return true
+	}
+
+	// configuration state of the oracle
+	once := onceOf(qps, iv)
+	ceil := int64(qps)
+	settled, lowered := true, false
+	epoch := 0
+	var updAt time.Time
+	var updTicks int64
+	updNote := fmt.Sprintf("new limiter MaxQPS %d", qps)
+	certainOwn := func() int64 {
+		d := overloader.VerifTicks() - updTicks
+		el := time.Since(updAt) // read after the ticks: an over-estimate of the time the parked tickers had
+		return d - parked*(int64(el/time.Second)+3)
+	}
+	refresh := func() {
+		if !settled && certainOwn() >= 3 {
+			settled, ceil = true, int64(qps)
+		}
+	}
+	waitFor := func(cond func() bool, extra time.Duration) bool {
+		deadline := time.Now().Add(watchdog + extra)
+		for !cond() {
+			if time.Now().After(deadline) {
+				return false
+			}
+			time.Sleep(300 * time.Microsecond)
+		}
+		return true
+	}
+	var marks []relMark
+	var windows, settledWindows, lazy int64
+	var lazyNote string
+	mark := func(label string) {
+		refresh()
+		m := relMark{Epoch: epoch, Ceil: ceil, Settled: settled, Label: label}
+		m.Tb = overloader.VerifTicks()
+		m.P = P()
+		m.Ta = overloader.VerifTicks()
+		for _, o := range marks {
+			if o.Epoch != m.Epoch {
+				continue
+			}
+			a, dt := m.P-o.P, m.Ta-o.Tb
+			rp.evals++
+			windows++
+			if o.Settled {
+				settledWindows++
+			}
+			if bound := o.Ceil + dt*(once+1); a > bound {
+				how := "capacity in force"
+				if !o.Settled {
+					how = "largest capacity since the last refill certainly applied"
+				}
+				rp.add("rate-exceeded", fmt.Sprintf("%s; window [%s .. %s]: %d admitted with %d refill ticks between the first message and the last reply; bound %s %d + ticks*(once %d + 1) = %d",
+					updNote, o.Label, label, a, dt, how, o.Ceil, once, bound), nil)
+			} else if !o.Settled && lowered && a > int64(qps)+dt*(once+1) {
+				lazy++
+				if lazyNote == "" {
+					lazyNote = fmt.Sprintf("%s; window [%s .. %s]: %d admitted with %d refill ticks, new capacity %d + ticks*(once %d + 1) = %d (the first refill after the Update was not yet certain: not judged against the new capacity)",
+						updNote, o.Label, label, a, dt, qps, once, int64(qps)+dt*(once+1))
+				}
+			}
+		}
+		marks = append(marks, m)
+	}
+	var bursts []map[string]interface{}
+	updates := 0
+	for si, st := range c.Steps {
+		switch st.Op {
+		case "drain", "burst":
+			mark(fmt.Sprintf("step %d before %s", si+1, st.Op))
+			before := marks[len(marks)-1]
+			if !issue(st.Arg) {
+				rp.inconclusive = fmt.Sprintf("step %d (%s %d): incomplete after the watchdog", si+1, st.Op, st.Arg)
+				return rp
+			}
+			mark(fmt.Sprintf("step %d after %s of %d", si+1, st.Op, st.Arg))
+			after := marks[len(marks)-1]
+			bursts = append(bursts, map[string]interface{}{"step": si + 1, "op": st.Op, "messages": st.Arg, "admitted": after.P - before.P,
+				"ticks_in_window": after.Ta - before.Tb, "capacity_term": before.Ceil, "capacity_in_force": qps, "refill_certainly_applied": before.Settled,
+				"once": once, "bound": before.Ceil + (after.Ta-before.Tb)*(once+1)})
+			if st.Op == "burst" {
+				core.Add("rate_relimit_bursts", 1)
+				if before.Settled && updates > 0 {
+					core.Add("rate_relimit_bursts_judged_against_the_new_capacity", 1)
+				}
+			}
+		case "update":
+			refresh()
+			prevCeil, prevQPS, prevIv := ceil, qps, iv
+			qps = st.Arg
+			if st.Arg2 > 0 {
+				iv = time.Duration(st.Arg2) * time.Millisecond
+			}
+			updAt = time.Now() // before the Update: over-estimates the time the parked tickers had
+			ov.Update(mk(qps, iv))
+			updTicks = overloader.VerifTicks() // after the Update returned: every tick counted from here refills under the new limit
+			epoch++
+			updates++
+			once = onceOf(qps, iv)
+			ceil = int64(qps)
+			if prevCeil > ceil {
+				ceil = prevCeil
+			}
+			settled = ceil == int64(qps)
+			lowered = int64(qps) < prevCeil
+			updNote = fmt.Sprintf("after Update(MaxQPS %d -> %d, QPSInterval %v -> %v)", prevQPS, qps, prevIv, iv)
+		case "settle":
+			if !waitFor(func() bool { return certainOwn() >= 3 }, time.Duration(3+3*parked)*iv) {
+				rp.inconclusive = fmt.Sprintf("step %d: the refills after the Update were not observed (watchdog)", si+1)
+				return rp
+			}
+			refresh()
+		case "ticks":
+			start := overloader.VerifTicks()
+			n := int64(st.Arg)
+			if !waitFor(func() bool { return overloader.VerifTicks()-start >= n }, time.Duration(n)*iv) {
+				rp.inconclusive = fmt.Sprintf("step %d: no refill tick observed (watchdog)", si+1)
+				return rp
+			}
+		default:
+			core.Fatalf("unknown limit-change step %q", st.Op)
+		}
+	}
+	passed := P()
+	rejected := atomic.LoadInt64(&dRefused)
+	if !direct {
+		if !quiet() {
+			rp.inconclusive = "no quiescence after the last burst"
+			return rp
+		}
+		all, handled := atomic.LoadInt64(&rs.nPassed), atomic.LoadInt64(&rs.nHandled)
+		if handled != all {
+			rp.add("handler-count-mismatch", fmt.Sprintf("%d messages passed the limiter, handlers ran %d times", all, handled), nil)
+		}
+		if pc := atomic.LoadInt64(&rs.nPassedCall); okCalls != pc && otherErr == 0 {
+			rp.add("rejected-ok-reply", fmt.Sprintf("%d calls passed the limiter but %d calls completed with an OK status", pc, okCalls), nil)
+		}
+		rejected = errCalls
+		if c.Kinds == "mix" {
+			rejected = atomic.LoadInt64(&rs.nArrived) - all
+		}
+		core.Add("rate_error_replies", errCalls)
+		rp.extra["calls_ok"], rp.extra["calls_error_reply"], rp.extra["calls_failing_otherwise"], rp.extra["pushes"] = okCalls, errCalls, otherErr, pushes
+	}
+	rp.admitted, rp.rejected = passed, rejected
+	rp.extra["bursts"] = bursts
+	rp.extra["windows_judged"], rp.extra["windows_judged_against_the_capacity_in_force"] = windows, settledWindows
+	rp.extra["parked_tickers_of_earlier_cases"] = parked
+	if lazy > 0 {
+		rp.extra["windows_above_the_new_capacity_before_its_first_refill"] = lazy
+		rp.extra["first_such_window"] = lazyNote
+	}
+	core.Add("rate_relimit_cases", 1)
+	core.Add("rate_relimit_windows", windows)
+	core.Add("rate_relimit_windows_judged_against_the_capacity_in_force", settledWindows)
+	core.Add("rate_relimit_windows_above_a_lowered_capacity_before_its_first_refill", lazy)
+	core.Add("rate_admitted", passed)
+	core.Add("rate_rejected", rejected)
+	drive := "sessions-" + c.Kinds
+	if direct {
+		drive = "direct"
+	}
+	last := c.MaxQPS
+	var chain []string
+	for _, st := range c.Steps {
+		if st.Op == "update" {
+			chain = append(chain, fmt.Sprintf("%d-%d", last, st.Arg))
+			if st.Arg2 > 0 {
+				chain[len(chain)-1] += fmt.Sprintf("@%dms", st.Arg2)
+			}
+			last = st.Arg
+		}
+	}
+	rp.sig = fmt.Sprintf("rate/%s/%s/q%s/int%dms/%s", c.HClass, c.Place, strings.Join(chain, ","), c.IntervalMs, drive)
+	rp.nontrivial = updates > 0 && passed > 0 && rejected > 0
+	return rp
+}
+
+// genRelimit enumerates direction x bucket level x burst placement (18 combinations by index); the limits, the
+// interval, total / per-handler limiter, real sessions (calls, or calls mixed with pushes) / direct drive of the
+// admission hooks, an interval change in the same Update and a second Update back are drawn from the PRNG.
+func genRelimit(i int, r *core.Rand) caseDesc {
+	c := caseDesc{Engine: "rate", Seed: int64(r.Uint64() >> 1), Sessions: 4, Kinds: "call"}
+	combo := i % 18
+	dir := []string{"lower", "raise"}[combo%2]
+	level := []string{"full", "partial", "empty"}[(combo/2)%3]
+	c.Place = []string{"at-once", "first-refill", "ticks-later"}[(combo/6)%3]
+	c.Mode = []string{"total", "handler"}[(i+i/18)%2]
+	// {200,5}@20ms is the everyday case; {1000,50} and {400,100} have a refill quantum that changes with the limit
+	// (a stale quantum shows across the single-tick bursts); {60,59} and {2,1} are the smallest possible changes
+	pairs := [][2]int{{200, 5}, {100, 20}, {1000, 50}, {60, 59}, {2, 1}, {400, 100}, {30, 10}}
+	p := pairs[r.Intn(len(pairs))]
+	hi, lo := p[0], p[1]
+	c.IntervalMs = []int{10, 20, 25}[r.Intn(3)]
+	switch r.Intn(4) {
+	case 0:
+		c.Sessions = 0 // direct drive of PostReadCallHeader / PostReadPushHeader
+	case 1:
+		c.Kinds = "mix"
+	}
+	q0, q1 := hi, lo
+	if dir == "raise" {
+		q0, q1 = lo, hi
+	}
+	c.MaxQPS = q0
+	maxBurst := 260
+	if c.Sessions == 0 {
+		maxBurst = 1300
+	}
+	burst := func() step {
+		b := hi + 1 + r.Intn(20)
+		if b > maxBurst {
+			b = maxBurst - r.Intn(20)
+		}
+		return step{Op: "burst", Arg: b}
+	}
+	switch level {
+	case "partial":
+		d := 1 + r.Intn(q0)
+		if dir == "lower" { // tokens left: just below, at, just above the new capacity, or half way
+			left := []int{lo - 1, lo, lo + 1, (hi + lo) / 2}[r.Intn(4)]
+			d = q0 - left
+		}
+		if d < 1 {
+			d = 1
+		}
+		c.Steps = append(c.Steps, step{Op: "drain", Arg: d})
+	case "empty":
+		c.Steps = append(c.Steps, step{Op: "drain", Arg: q0 + 2})
+	}
+	up := step{Op: "update", Arg: q1}
+	if r.Intn(5) == 0 { // the interval changes in the same Update (the ticker is replaced)
+		up.Arg2 = []int{10, 20, 25, 40}[r.Intn(4)]
+		if up.Arg2 == c.IntervalMs {
+			up.Arg2 = 50
+		}
+	}
+	c.Steps = append(c.Steps, up)
+	switch c.Place {
+	case "first-refill":
+		c.Steps = append(c.Steps, step{Op: "settle"})
+	case "ticks-later":
+		c.Steps = append(c.Steps, step{Op: "settle"}, step{Op: "ticks", Arg: 2 + r.Intn(6)})
+	}
+	c.Steps = append(c.Steps, burst(), step{Op: "ticks", Arg: 1}, burst(), step{Op: "ticks", Arg: 2}, burst())
+	if r.Intn(3) == 0 { // and back: the other direction, from whatever level the bucket has reached by then
+		k := 3 + r.Intn(5)
+		if dir == "raise" { // enough refills under the higher limit for the bucket to hold more than the lower one again
+			if k += lo / int(onceOf(hi, time.Duration(c.IntervalMs)*time.Millisecond)); k > 30 {
+				k = 30
+			}
+		}
+		c.Steps = append(c.Steps, step{Op: "ticks", Arg: k}, step{Op: "update", Arg: q0})
+		if r.Intn(3) != 0 {
+			c.Steps = append(c.Steps, step{Op: "settle"})
+		}
+		c.Steps = append(c.Steps, burst(), step{Op: "ticks", Arg: 1}, burst())
+		dir += map[string]string{"lower": "-then-raise", "raise": "-then-lower"}[dir]
+	}
+	c.HClass = fmt.Sprintf("limit-change/%s-%s/%s", dir, level, c.Mode)
+	c.Class = "rate/" + c.HClass
+	return c
+}
+
 // ---------- rate engine: high contention on an emptying bucket ----------
 
 type ctnPassed struct{ n *int64 }
@@ -2296,6 +2726,8 @@ func execute(id string, c caseDesc) {
 		rp = runConc(c)
 	case strings.HasPrefix(c.HClass, "contention-"):
 		rp = runContention(c)
+	case strings.HasPrefix(c.HClass, "limit-change/"):
+		rp = runRelimit(c)
 	case strings.HasPrefix(c.HClass, "update-interval-shorter/"):
 		rp = runShorten(c)
 	case strings.HasPrefix(c.HClass, "update-"):
@@ -2386,9 +2818,11 @@ func main() {
 
 	nSeq, nConc, nLin, linPer, nRate := 130, 24, 20, 60, 24
 	nWin, nUpd, nShort := 8, 8, 12
+	nRelimit := 32 // a multiple of the quick tier's 16 batches: the batch of every later job is unchanged
 	if *tier == "thorough" {
 		nSeq, nConc, nLin, linPer, nRate = 4400, 600, 400, 100, 500
 		nWin, nUpd, nShort = 128, 128, 144
+		nRelimit = 576
 		minBudget = 80
 	}
 	type job struct {
@@ -2410,6 +2844,12 @@ func main() {
 	rs := core.NewRand(*seed, 183)
 	for i := 0; i < nShort; i++ {
 		jobs = append(jobs, job{fmt.Sprintf("short%04d", i), genShorten(i, rs)})
+	}
+	// limit-change cases: still early in the process (the tickers parked by the few rate cases before them are
+	// accounted for when they decide that a refill of their own limiter has certainly been applied)
+	rl := core.NewRand(*seed, 185)
+	for i := 0; i < nRelimit; i++ {
+		jobs = append(jobs, job{fmt.Sprintf("relim%04d", i), genRelimit(i, rl)})
 	}
 	for i := 0; i < nSeq; i++ {
 		c := genSeq(seqClasses[i%len(seqClasses)], r)
@@ -2437,6 +2877,9 @@ func main() {
 	}
 	for i, j := range jobs {
 		if i%*nbatch != *batch {
+			continue
+		}
+		if only := os.Getenv("C18_ONLY"); only != "" && !strings.HasPrefix(j.id, only) { // development aid
 			continue
 		}
 		execute(j.id, j.c)
